@@ -157,8 +157,8 @@ def truncLen (k : Compact) (W : Nat) (L R : Int) : Int :=
   | .tri => 1 + R - L
   | .fbank => min (W : Int) (R + 1) - L
 
-/-- the two `assert`s: `rate * (left_idx - 1) / width <= left` and
-`rate * (right_idx + 1) / width >= right`, over the exact fractions -/
+/-- the two `assert`s: `left_idx - 1 <= width * left / rate` and
+`right_idx + 1 >= width * right / rate`, over the exact fractions -/
 def assertsOk (W : Nat) (lo hi : Frac) (L R : Int) : Bool :=
   decide ((L - 1) * lo.den ≤ (W : Int) * lo.num) && decide ((W : Int) * hi.num ≤ (R + 1) * hi.den)
 
